@@ -17,6 +17,8 @@ def shell_family(seed, n):
         named = [D.sw("f0", "-a", "--alpha", help=h()), D.rf("f1", "count", "--beta", help=h())]
         out = D.ar("o0", "opt", "str", "--out", "-o", help=h())
         out["complete_shell"] = rnd.choice(["file", "file_mask", "dir", "dir_mask", "nothing"])
+        if i % 6 == 0:
+            out["complete_shell"] = "nothing"       # (asks the shell for nothing at all: no directive, no candidate, no echo)
         out["mask"] = pe(rnd.choice(["*.toml", "it's", "*.(c|h)", "a b", "$(touch CANARY7)"]))
         nm = D.ar("n0", "opt", "str", "--name", help=h())
         nm["completer"] = [pe(x) for x in rnd.sample(["cv1", "cv'2", "cv 3", "cv$(touch CANARY8)", "cv;4", "cv\"5", "cvx"], 3)]
